@@ -40,7 +40,9 @@ class Branch(Path, Generic[SWCTypeVar]):
         return self.attach.get_ndata(key)[self.idx]
 
     def get_compartments(self) -> Compartments[Compartment]:
-        return Compartments(self.Compartment(self, n.pid, n.id) for n in self[1:])
+        return Compartments(
+            self.Compartment(self, i - 1, i) for i in range(1, len(self))
+        )
 
     def get_segments(self) -> Compartments[Compartment]:
         return self.get_compartments()  # Alias
